@@ -111,49 +111,54 @@ func c39(c *engine.Ctx) {
 		for _, t := range tg {
 			var upper, empty, pidx, ptot, verify, lower bool
 			verifyWhy := "no `part.Proof.Verify(ps.Hash(), part.Bytes) == nil` fact holds at the write"
-			for _, ft := range niFacts(g, t.s) {
-				cmp, ok := niAsCmp(ft)
+			for _, cf := range niFactsDeep(f, t.s, 2) {
+				cmp, ok := niAsCmp(cf.niFact)
 				if !ok {
 					continue
 				}
+				// the fact may live in a private helper (e.g. a verify* method whose
+				// nil result gates the write): match on that function's own objects
+				finfo := cf.Info()
+				lpart, lrecv := cf.Loc(part), cf.Loc(recv)
+				isIdx := func(e ast.Expr) bool { return niSelField(finfo, e, fIdx) && niMentionsObj(finfo, e, lpart) }
 				for _, cm := range []niCmp{cmp, cmp.niFlip()} {
-					if isPartIdx(cm.X) && cm.Op == token.LSS && niSelField(info, cm.Y, fTotal) && niMentionsObj(info, cm.Y, recv) {
+					if isIdx(cm.X) && cm.Op == token.LSS && niSelField(finfo, cm.Y, fTotal) && niMentionsObj(finfo, cm.Y, lrecv) {
 						upper = true
 					}
-					if isPartIdx(cm.X) && cm.Op == token.GEQ && niIsZero(info, cm.Y) {
+					if isIdx(cm.X) && cm.Op == token.GEQ && niIsZero(finfo, cm.Y) {
 						lower = true
 					}
-					if ix, isIx := ast.Unparen(cm.X).(*ast.IndexExpr); isIx && cm.Op == token.EQL && isNil(cm.Y) && niSelField(info, ix.X, fParts) && niMentionsObj(info, ix.X, recv) && isPartIdx(ix.Index) {
+					if ix, isIx := ast.Unparen(cm.X).(*ast.IndexExpr); isIx && cm.Op == token.EQL && isNil(cm.Y) && niSelField(finfo, ix.X, fParts) && niMentionsObj(finfo, ix.X, lrecv) && isIdx(ix.Index) {
 						empty = true
 					}
 					inProof := func(e ast.Expr) bool {
 						se, ok := ast.Unparen(e).(*ast.SelectorExpr)
-						return ok && niSelField(info, se.X, fProof) && niMentionsObj(info, se.X, part)
+						return ok && niSelField(finfo, se.X, fProof) && niMentionsObj(finfo, se.X, lpart)
 					}
-					if cm.Op == token.EQL && niSelField(info, cm.X, fPIdx) && inProof(cm.X) && isPartIdx(cm.Y) {
+					if cm.Op == token.EQL && niSelField(finfo, cm.X, fPIdx) && inProof(cm.X) && isIdx(cm.Y) {
 						pidx = true
 					}
-					if cm.Op == token.EQL && niSelField(info, cm.X, fPTot) && inProof(cm.X) && niSelField(info, cm.Y, fTotal) && niMentionsObj(info, cm.Y, recv) {
+					if cm.Op == token.EQL && niSelField(finfo, cm.X, fPTot) && inProof(cm.X) && niSelField(finfo, cm.Y, fTotal) && niMentionsObj(finfo, cm.Y, lrecv) {
 						ptot = true
 					}
 					if cm.Op == token.EQL && isNil(cm.Y) {
 						x := ast.Unparen(cm.X)
 						if id, isID := x.(*ast.Ident); isID {
-							if d := niSingleDef(f, info.ObjectOf(id)); d != nil {
+							if d := niSingleDef(cf.Fn, finfo.ObjectOf(id)); d != nil {
 								x = ast.Unparen(d)
 							}
 						}
 						call, isCall := x.(*ast.CallExpr)
-						if !isCall || niCallee(info, call) != "tm2/pkg/crypto/merkle.(*SimpleProof).Verify" {
+						if !isCall || niCallee(finfo, call) != "tm2/pkg/crypto/merkle.(*SimpleProof).Verify" {
 							continue
 						}
 						rx := niRecvExpr(call)
 						switch {
-						case !(niSelField(info, rx, fProof) && niMentionsObj(info, rx, part)):
+						case !(niSelField(finfo, rx, fProof) && niMentionsObj(finfo, rx, lpart)):
 							verifyWhy = "Verify is not called on part.Proof"
-						case len(call.Args) != 2 || !c39IsSetHash(info, call.Args[0], recv, fHash):
+						case len(call.Args) != 2 || !c39IsSetHash(finfo, call.Args[0], lrecv, fHash):
 							verifyWhy = "the root verified against is `" + engine.ExprString(call.Args[0]) + "`, not the set's hash"
-						case !(niSelField(info, call.Args[1], fBytes) && niMentionsObj(info, call.Args[1], part)):
+						case !(niSelField(finfo, call.Args[1], fBytes) && niMentionsObj(finfo, call.Args[1], lpart)):
 							verifyWhy = "the leaf verified is not part.Bytes"
 						default:
 							verify, verifyWhy = true, "write reached only when part.Proof.Verify(ps.Hash(), part.Bytes) == nil"
